@@ -218,6 +218,44 @@ class Model:
     def state(self):
         return (self.tau, self.non_local)
 
+    # -- derived facts about the stored similarity (cached; overridden with
+    #    numpy in NpModel) --------------------------------------------------
+    def _memo(self, name, f):
+        c = self.__dict__.setdefault("_memo_", {})
+        if name not in c:
+            c[name] = f()
+        return c[name]
+
+    def offs(self):
+        return self._memo("offs", lambda: offdiag_sorted(self.S))
+
+    def allv(self):
+        return self._memo("allv", lambda: all_sorted(self.S))
+
+    def diag_max(self):
+        return self._memo("dmax", lambda: diagonal_is_maximal(self.S))
+
+    def symmetric(self):
+        return self._memo("sym", lambda: is_symmetric(self.S))
+
+    def bounds(self, rho, tau):
+        return density_bounds(self.S, rho, tau)
+
+    def thresholds_for(self, rho):
+        offs = self.offs()
+        P = len(offs)
+        return [float(offs[k]) if k < P else None
+                for k in quantile_index(rho, P)]
+
+    def at_or_above(self, tau):
+        """The matrix (|S| w >= tau) off the diagonal - only used to name the
+        closed form of a wrong adjacency."""
+        self.expected()
+        V, _ = self._w[self.non_local]
+        n = self.n
+        return [[1 if (i != j and V[i][j] >= tau) else 0 for j in range(n)]
+                for i in range(n)]
+
     def apply(self, op):
         """op = ["thr", t] | ["dens", rho] | ["nl", b].  For "dens" the new
         threshold is one of `quantile_thresholds`; the model keeps the list in
@@ -228,7 +266,7 @@ class Model:
         if kind == "thr":
             self.tau = arg
         elif kind == "dens":
-            self.accepted = quantile_thresholds(self.S, arg)
+            self.accepted = self.thresholds_for(arg)
             self.tau = self.accepted[0]
         elif kind == "nl":
             self.non_local = bool(arg)
@@ -242,6 +280,70 @@ class Model:
             self._w[self.non_local] = weighted(self.S, self.D, self.non_local)
         V, X = self._w[self.non_local]
         return adjacency(V, X, self.tau if tau is None else tau)
+
+
+class NpModel(Model):
+    """The same reference model evaluated with numpy arrays (for networks of
+    a few hundred nodes, where the plain loops above are too slow).  Still
+    nothing but the documented formulas: elementwise ``|S| * w > tau``,
+    a sort of the off-diagonal entries, counts.  `Sabs` and `D` are float64
+    arrays (the single precision values as stored / as the grid reports
+    them)."""
+
+    def __init__(self, Sabs, D, directed, tau, non_local=False):
+        import numpy as np
+        self.np = np
+        Model.__init__(self, np.asarray(Sabs, dtype=float),
+                       np.asarray(D, dtype=float), directed, tau, non_local)
+        self.off = ~np.eye(self.n, dtype=bool)
+
+    def offs(self):
+        return self._memo("offs", lambda: self.np.sort(self.S[self.off]))
+
+    def allv(self):
+        return self._memo("allv", lambda: self.np.sort(self.S.ravel()))
+
+    def diag_max(self):
+        return self._memo("dmax", lambda: bool(
+            self.S.diagonal().min() >= self.offs()[-1]))
+
+    def symmetric(self):
+        return self._memo("sym", lambda: bool(
+            self.np.array_equal(self.S, self.S.T)))
+
+    def bounds(self, rho, tau):
+        P = self.n * (self.n - 1)
+        hi = Fraction(float(rho)).limit_denominator(10 ** 6) * P
+        t = int(self.np.count_nonzero(self.S[self.off] == tau))
+        return hi - t, hi
+
+    def _weighted(self):
+        np = self.np
+        if not hasattr(self, "_w"):
+            self._w = {}
+        if self.non_local not in self._w:
+            if self.non_local:
+                W = 0.5 * (np.tanh(A_STEEP * (self.D - D_MIN)) + 1.0)
+                self._w[True] = (self.S * W, W == 1.0)
+            else:
+                self._w[False] = (self.S, np.ones_like(self.S, dtype=bool))
+        return self._w[self.non_local]
+
+    def expected(self, tau=None):
+        np = self.np
+        tau = float(self.tau if tau is None else tau)
+        V, X = self._weighted()
+        A = ((V > tau) & self.off).astype(int)
+        if is_f32(tau):
+            loose = ~X
+        else:
+            loose = np.ones_like(X)
+        U = loose & self.off & (np.abs(V - tau) <= ATOL32 + RTOL32 * abs(tau))
+        return A, U
+
+    def at_or_above(self, tau):
+        V, _ = self._weighted()
+        return ((V >= tau) & self.off).astype(int)
 
 
 def reachable_states(Sabs, ops, tau0):
